@@ -325,6 +325,12 @@ class Sched:
                         return
                     cond = r.operand(t['discr'])
                     if len(succs) == 1:
+                        # the other side is an error exit: no decision of the layout, but what the test says about a file field is
+                        # kept as a 'guard' for the value-set step of normalise() (`if t >= 4 { return Err(..) }` bounds a later `_ =>`)
+                        if len(cfg.succ[bb]) > 1:
+                            d = self._decision(body, bb, cond, succs[0], loop_count_term)
+                            if d is not None and d[1] == 'cmp':
+                                items = items + [('D', 'guard') + tuple(d[2:])]
                         bb = succs[0]
                         continue
                     # a branch whose arms touch the reader nowhere before they rejoin does not shape the read sequence:
@@ -410,7 +416,7 @@ class Sched:
                 return ('D', 'cmp', c[1], c[2], q.const_val(c[3]), truth)
         if t['ty'] != 'bool' and c[0] != 'discr':
             v = vals[0] if vals and vals != ['otherwise'] else 'other'
-            return ('D', 'val', c, v)
+            return ('D', 'val', c, v, tuple(sorted(x_ for x_, _ in t['targets'])))
         # bitflags `contains`
         if c[0] == 'call' and c[1].endswith('::contains') and len(c[2]) == 2:
             truth = q.bool_outcome(body, bb, vals)
@@ -540,6 +546,8 @@ def normalise(path):
     events = []
     site_idx = {}
     decisions = []
+    excluded = {}          # field refs -> values a `match` listed before its `_ =>` edge was taken
+    guards = []            # comparisons of a field whose other side is an error exit
     sites_of_event = []
 
     def refs(t):
@@ -590,12 +598,18 @@ def normalise(path):
                 if not rf:
                     continue     # comparisons not involving file fields do not label the path
                 decisions.append(('cmp', it[2], rf, it[4], it[5]))
+            elif tag == 'guard':
+                rf, un = refs(it[3])
+                if rf:
+                    guards.append(('cmp', it[2], rf, it[4], it[5]))
             elif tag == 'val':
                 rf, un = refs(it[2])
                 if not rf:
                     decisions.append(('val-nonread', show(it[2]), it[3]))
                 else:
                     decisions.append(('val', rf, it[3]))
+                    if it[3] == 'other' and len(it) > 4:
+                        excluded.setdefault(rf, set()).update(it[4])
             elif tag == 'contains':
                 rf, un = refs(it[2])
                 cs = tuple(sorted(consts_in(it[3])))
@@ -604,4 +618,39 @@ def normalise(path):
                 rf, un = refs(it[2])
                 if rf:
                     decisions.append(('opaque', rf, show(it[2])[:80], it[3]))
+    # `_ =>` after the other values have been dealt with: when the tests on the way (a range check, the values the match lists, an
+    # `== c` that failed) leave exactly one value for the field, the path IS the path of that value (`if t >= 4 {Err}; match t {1 => ..,
+    # 3 => .., _ => { let z = t == 2; .. } }` reaches the raw-image reads for t == 0 only)
+    for rf, excl in excluded.items():
+        lo, hi, eq = 0, None, None
+        excl = set(excl)
+        grp = [d for d in decisions if d[0] in ('val', 'cmp') and (d[1] if d[0] == 'val' else d[2]) == rf]
+        for d in grp + [g for g in guards if g[2] == rf]:
+            if d[0] == 'val':
+                if isinstance(d[2], int):
+                    eq = d[2]
+                continue
+            op, c, truth = d[1], d[3], d[4]
+            if not isinstance(c, int) or truth is None:
+                continue
+            if not truth:
+                op = {'Lt': 'Ge', 'Ge': 'Lt', 'Gt': 'Le', 'Le': 'Gt', 'Eq': 'Ne', 'Ne': 'Eq'}[op]
+            if op == 'Lt':
+                hi = c - 1 if hi is None else min(hi, c - 1)
+            elif op == 'Le':
+                hi = c if hi is None else min(hi, c)
+            elif op == 'Ge':
+                lo = max(lo, c)
+            elif op == 'Gt':
+                lo = max(lo, c + 1)
+            elif op == 'Eq':
+                eq = c
+            elif op == 'Ne':
+                excl.add(c)
+        if eq is None and hi is not None and hi - lo <= 64:
+            cand = [v for v in range(lo, hi + 1) if v not in excl]
+            if len(cand) == 1:
+                eq = cand[0]
+        if eq is not None and eq not in excl and (hi is None or eq <= hi) and eq >= lo:
+            decisions = [d for d in decisions if d not in grp] + [('val', rf, eq)]
     return tuple(events), tuple(sorted(decisions, key=repr)), sites_of_event
